@@ -1269,7 +1269,8 @@ def get_signals(signal_array, frame, ea, multiplex_id, float_factory, bit_offset
                     logger.debug('No valid compu method found for this - check ARXML file!!')
                     compu_method = None
         if compu_method is None:
-            logger.error('No valid compu method found for isignal/systemsignal {}/{} - check ARXML file!!'
+            # legal: a signal without COMPU-METHOD carries its raw value (factor 1, offset 0)
+            logger.debug('No compu method found for isignal/systemsignal {}/{}'
                          .format(ea.get_short_name(isignal), ea.get_short_name(system_signal)))
         #####################################################################################################
         # no found compu-method fuzzy search in systemsignal:
